@@ -847,4 +847,166 @@ Proof.
       * right. split; [unfold ph_early; rewrite Eph; exact Hn|]. intros Ek. invc Ek. rewrite Hk in Hplain. discriminate Hplain.
 Qed.
 
+
+(* ------------------------------------------------------------------ the whole loop *)
+Lemma held_dstep_l g s c s' c' o :
+  HQ g s c -> dstep s c = inl (s', c', o) -> gnb (gobs g o) = true -> gpl (gobs g o) = true -> HQ (gobs g o) s' c'.
+Proof.
+  intros HQ0 H Hnb Hpl. destruct c.
+  - eapply held_top; eassumption.
+  - eapply held_body; eassumption.
+  - eapply held_aftersleep; eassumption.
+  - exact (held_process_gen g s m _ HQ0 H Hpl).
+  - eapply held_continue; eassumption.
+  - eapply held_cancelled; eassumption.
+  - eapply held_exit; eassumption.
+  - cbn [RE_Small.dstep] in H. discriminate H.
+Qed.
+
+Lemma held_dstep_r g s c s' o :
+  HQ g s c -> dstep s c = inr (s', o) -> gnb (gobs g o) = true -> gpl (gobs g o) = true -> HA (gobs g o) s'.
+Proof.
+  intros HQ0 H Hnb Hpl. destruct c.
+  - eapply HA_idle; [exact HQ0 | eapply held_top_fin; eassumption].
+  - eapply held_body_fin; eassumption.
+  - exfalso. cbn [RE_Small.dstep] in H. repeat (bmh H); discriminate H.
+  - exact (held_process_gen g s m _ HQ0 H Hpl).
+  - cbn [RE_Small.dstep] in H. discriminate H.
+  - exfalso. cbn [RE_Small.dstep] in H. repeat (bmh H); discriminate H.
+  - eapply held_exit_fin; eassumption.
+  - eapply held_finalize_fin; eassumption.
+Qed.
+
+Lemma gobs_nb_mono g a b : gnb (gobs g (a ++ b)) = true -> gnb (gobs g a) = true.
+Proof. rewrite gobs_app. unfold gobs at 1. apply gnb_mono. Qed.
+Lemma gobs_pl_mono g a b : gpl (gobs g (a ++ b)) = true -> gpl (gobs g a) = true.
+Proof. rewrite gobs_app. unfold gobs at 1. apply gpl_mono. Qed.
+
+Lemma held_drive g1 fuel s c os s' o :
+  (gnb (gobs g1 os) = true -> gpl (gobs g1 os) = true -> HQ (gobs g1 os) s c) ->
+  drive presume plan_of dev fuel s c os = (s', o) ->
+  gnb (gobs g1 o) = true -> gpl (gobs g1 o) = true -> HA (gobs g1 o) s'.
+Proof.
+  refine (RE_Small.drive_inv P presume plan_of D dev
+           (fun s c os => gnb (gobs g1 os) = true -> gpl (gobs g1 os) = true -> HQ (gobs g1 os) s c)
+           (fun s' o => gnb (gobs g1 o) = true -> gpl (gobs g1 o) = true -> HA (gobs g1 o) s') _ _ _ fuel s c os s' o).
+  - intros s0 c0 os0 s1 c1 o1 Q0 Hd Hnb Hpl. rewrite gobs_app in *.
+    eapply held_dstep_l; [|exact Hd|exact Hnb|exact Hpl].
+    apply Q0; [unfold gobs at 1 in Hnb; apply gnb_mono in Hnb; exact Hnb | unfold gobs at 1 in Hpl; apply gpl_mono in Hpl; exact Hpl].
+  - intros s0 c0 os0 s1 o1 Q0 Hd Hnb Hpl. rewrite gobs_app in *.
+    eapply held_dstep_r; [|exact Hd|exact Hnb|exact Hpl].
+    apply Q0; [unfold gobs at 1 in Hnb; apply gnb_mono in Hnb; exact Hnb | unfold gobs at 1 in Hpl; apply gpl_mono in Hpl; exact Hpl].
+  - intros s0 c0 os0 _ Hnb _. exfalso. rewrite gobs_app in Hnb. eapply gnb_bad; exact Hnb.
+Qed.
+
+
+(* ------------------------------------------------------------------ one step of the task *)
+Lemma g_task g :
+  hgood (gh (g_item g (TEv EvTask))) = hgood (gh g) /\ hactive (gh (g_item g (TEv EvTask))) = hactive (gh g) /\
+  hreq (gh (g_item g (TEv EvTask))) = None.
+Proof. cbn. auto. Qed.
+
+Lemma HQ_from g1 sid o s1 c1 :
+  hgood (gh g1) = true -> hreq (gh g1) = None -> hactive (gh g1) = [sid] -> Forall hsafe o ->
+  (forall g', heldD sid g' s1 c1) -> HQ (gobs g1 o) s1 c1.
+Proof.
+  intros G1 G2 G3 F K. destruct (gobs_safe o g1 F) as (A & B & C & _). unfold HQ. rewrite A, C.
+  split; [exact G1|]. split; [exact G2|]. destruct B as [B|B]; [right; exists sid; split; [congruence | apply K] | left; exact B].
+Qed.
+Lemma HA_from g1 sid o s1 :
+  hgood (gh g1) = true -> hactive (gh g1) = [sid] -> Forall hsafe o -> heldA sid s1 -> HA (gobs g1 o) s1.
+Proof.
+  intros G1 G3 F K. destruct (gobs_safe o g1 F) as (A & B & C & _). unfold HA. rewrite A.
+  split; [exact G1|]. destruct B as [B|B]; [right; exists sid; split; [congruence | exact K] | left; exact B].
+Qed.
+
+Lemma held_tentry g s r0 :
+  HA g s -> (forall sid, hactive (gh g) = [sid] -> alookup sid (futs s) <> Some true) ->
+  RE_Inv.tentry P presume D dev s = r0 ->
+  match r0 with
+  | inl (s1, c1, os1) => gnb (gobs (g_item g (TEv EvTask)) os1) = true -> HQ (gobs (g_item g (TEv EvTask)) os1) s1 c1
+  | inr (s', o) => gnb (gobs (g_item g (TEv EvTask)) o) = true -> HA (gobs (g_item g (TEv EvTask)) o) s'
+  end.
+Proof.
+  intros (G1 & G3) Hf H. destruct (g_task g) as (A1 & A2 & A3).
+  set (g1 := g_item g (TEv EvTask)) in *. rewrite <- A1 in G1. rewrite <- A2 in G3.
+  destruct G3 as [G3|(sid & G3 & HD)].
+  { destruct r0 as [[[s1 c1] os1]|[s' o]]; intros _.
+    - destruct (gobs_idle os1 g1 G3 A3) as (B1 & B2 & B3). unfold HQ. rewrite B1, B2, B3. auto.
+    - destruct (gobs_idle o g1 G3 A3) as (B1 & B2 & B3). unfold HA. rewrite B1, B3. auto. }
+  specialize (Hf sid). rewrite <- A2 in Hf. specialize (Hf G3). clearbody g1. clear A1 A2.
+  unfold heldA in HD. unfold RE_Inv.tentry in H. cbv zeta in H.
+  destruct (pc s) eqn:Epc.
+  - (* no task *) subst r0. intros Hnb. exfalso. eapply gnb_bad; exact Hnb.
+  - (* not started: cancelled *) rewrite HD in H. subst r0. intros _.
+    apply (HA_from g1 sid _ _ G1 G3); [repeat constructor|]. unfold heldA. simp_st. exact I.
+  - rewrite HD in H. subst r0. intros _.
+    apply (HA_from g1 sid _ _ G1 G3); [repeat constructor|]. unfold heldA. simp_st. exact I.
+  - (* asleep *)
+    destruct HD as [(S1 & S2 & S3)|[((R1 & R2 & R3) & _ & T)|((R1 & R2 & R3) & h & TB & T)]].
+    + rewrite S2 in H. subst r0. intros _. apply (HQ_from g1 sid _ _ _ G1 A3 G3); [constructor|]. intros g'. cbn [heldD]. left.
+      simp_st. repeat split; auto.
+    + rewrite R2 in H. subst r0. intros _. apply (HQ_from g1 sid _ _ _ G1 A3 G3); [constructor|]. intros g'. cbn [heldD]. right; right.
+      split; [repeat split; simp_st; auto|]. destruct T as [T|(m & tl & e & rs & T1 & T2)]; [left; exact T|].
+      right; right. exists m, tl. split; [exact T1|]. exists e, rs. exact T2.
+    + rewrite R2 in H. subst r0. intros _. apply (HQ_from g1 sid _ _ _ G1 A3 G3); [constructor|]. intros g'. cbn [heldD]. right; right.
+      split; [repeat split; simp_st; auto|]. right; left. exists h. split; [exact TB|].
+      destruct T as [(_ & T)|(T & _)]; [discriminate T | exact T].
+  - (* paused: cancelled *) rewrite HD in H. subst r0. intros _. apply (HQ_from g1 sid _ _ _ G1 A3 G3); [constructor|]. intros; exact I.
+  - (* inside a command *)
+    destruct HD as [(S1 & S2 & S3)|[(_ & T & _)|((R1 & R2 & R3) & h & TB & T)]]; [| discriminate T |].
+    + rewrite S2 in H. subst r0. intros _. apply (HQ_from g1 sid _ _ _ G1 A3 G3); [constructor|]. intros g'. cbn [heldD]. left.
+      simp_st. repeat split; auto.
+    + rewrite R2 in H.
+      assert (Rn : running (set_must_cancel s false)) by (repeat split; simp_st; auto).
+      assert (Kc : forall (s1 : st) r, RE_Inv.samec P D (set_must_cancel s false) s1 -> ph_early h ->
+                                      forall g', heldD sid g' s1 (CContinue true r)).
+      { intros s1 r [E _] He g'. cbn [heldD]. right; right. destruct Rn as (X1 & X2 & X3). unfold RE_Inv.same in E. simp_st.
+        destruct E as (E1 & E2 & E3 & _ & _ & E6 & E7 & E8 & _).
+        split; [repeat split; congruence|]. right; left. exists h. split; [|exact He].
+        destruct TB as (m & tl & TB1 & TB2 & TB3). exists m, tl. repeat split; congruence. }
+      destruct k as [| |sids|fs|rn dd z].
+      * (* sleep *) subst r0. intros _. destruct T as [(_ & T)|(T & _)]; [discriminate T|].
+        apply (HQ_from g1 sid _ _ _ G1 A3 G3); [repeat constructor|]. apply Kc; [apply RE_Inv.samec_refl | exact T].
+      * (* grace sleep of a checkpoint: not while a suspension is held *)
+        exfalso. destruct T as [(_ & T)|(_ & T)]; [discriminate T | apply T; reflexivity].
+      * subst r0. intros _. destruct T as [(_ & T)|(T & _)]; [discriminate T|].
+        apply (HQ_from g1 sid _ _ _ G1 A3 G3); [|apply Kc; [apply RE_Inv.samec_refl | exact T]].
+        destruct (all_resolved (set_must_cancel s false) sids); repeat constructor.
+      * (* wait_for: the helper's own wait cannot complete before the release *)
+        subst r0. intros Hnb. destruct T as [(T1 & T2)|(T & _)].
+        -- exfalso. invc T2. unfold all_released in Hnb. cbn [forallb] in Hnb. simp_st.
+           destruct (alookup sid (futs s)) as [[|]|] eqn:El; [contradiction (Hf eq_refl) | |]; cbn [andb app] in Hnb; eapply gnb_bad; exact Hnb.
+        -- apply (HQ_from g1 sid _ _ _ G1 A3 G3); [|apply Kc; [apply RE_Inv.samec_refl | exact T]].
+           destruct (all_released (set_must_cancel s false) fs); repeat constructor.
+      * (* the caches of a bundled read *)
+        destruct T as [(_ & T)|(T & _)]; [discriminate T|].
+        pose proof (RE_Inv.mark_cached_same P D (set_must_cancel s false) rn dd) as Em.
+        destruct (finish_read (mark_cached (set_must_cancel s false) rn dd) rn dd z []) as [[s1 cr] o] eqn:Efr.
+        pose proof (finish_read_obs _ _ _ _ _ _ _ _ _ _ Efr) as ->. apply RE_Inv.finish_read_same in Efr.
+        subst r0. intros _. apply (HQ_from g1 sid _ _ _ G1 A3 G3); [repeat constructor|].
+        apply Kc; [eapply RE_Inv.samec_trans; eassumption | exact T].
+  - (* final sleep: the finally block *)
+    destruct (must_cancel s); subst r0;
+      match goal with |- context [finalize presume dev ?a ?b ?c] => destruct (finalize presume dev a b c) as [s' o] eqn:Ef end;
+      intros _;
+      (apply (HA_from g1 sid _ _ G1 G3);
+       [eapply Forall_imp'; [exact finq_hsafe | eapply finalize_finq; exact Ef]
+       | destruct (finalize_pc _ _ _ _ _ _ _ _ _ Ef) as [r' K]; unfold heldA; rewrite K; exact I]).
+  - subst r0. intros Hnb. exfalso. eapply gnb_bad; exact Hnb.
+Qed.
+
+Lemma held_task g s s' o :
+  HA g s -> (forall sid, hactive (gh g) = [sid] -> alookup sid (futs s) <> Some true) ->
+  task_step presume plan_of dev s = (s', o) ->
+  gnb (gobs (g_item g (TEv EvTask)) o) = true -> gpl (gobs (g_item g (TEv EvTask)) o) = true ->
+  HA (gobs (g_item g (TEv EvTask)) o) s'.
+Proof.
+  intros HA0 Hf H Hnb Hpl. rewrite RE_Inv.task_step_tentry in H.
+  pose proof (held_tentry g s _ HA0 Hf eq_refl) as K.
+  destruct (RE_Inv.tentry P presume D dev s) as [[[s1 c1] os1]|[s2 o2]].
+  - eapply held_drive; [|exact H|exact Hnb|exact Hpl]. intros Hnb1 _. apply K. exact Hnb1.
+  - invc H. apply K. exact Hnb.
+Qed.
+
 End C11.
